@@ -283,6 +283,16 @@ impl InjectorPP {
     }
 }
 
+impl Drop for InjectorPP {
+    fn drop(&mut self) {
+        // The fields are dropped after this returns, and a Vec drops its elements front to back.
+        // Guards must be released in reverse order of installation: when the same function was
+        // faked more than once, each later guard saved the bytes of the previous patch and only
+        // the first one holds the real original bytes, so it has to be the last to restore.
+        self.guards.reverse();
+    }
+}
+
 impl Default for InjectorPP {
     fn default() -> Self {
         Self::new()
